@@ -968,4 +968,481 @@ theorem vis_cleanup_sub (g : Graph) (s : State) (n c : Nat) (h : c ∈ ((vis g s
   obtain ⟨e, he, rfl⟩ := List.mem_map.mp h
   exact List.mem_map.mpr ⟨e, (((mem_vis_edges g s n e).2).mp he).1, rfl⟩
 
+/-! ## the moves of a `.cont` iteration -/
+
+/-- what a `.cont` iteration of worker `w` does to its path and to the dropped edges -/
+inductive Move (g : Graph) (w : Nat) (s s' : State) : Prop
+  | pushUp (last c : Nat) :
+      (s.wd w).path.getLast? = some last → (s'.wd w).path = (s.wd w).path ++ [c] →
+      c ∈ (g.node last).setup.map (·.1) → dropped s w (true, (g.node last).cls, (g.node c).cls) = false →
+      (∀ k, dropped s' w k = dropped s w k) → Move g w s s'
+  | pushDown (last c : Nat) :
+      (s.wd w).path.getLast? = some last → (s'.wd w).path = (s.wd w).path ++ [c] →
+      c ∈ (g.node last).cleanup.map (·.1) → dropped s w (false, (g.node last).cls, (g.node c).cls) = false →
+      ((s.wd w).path.length = 1 ∨ isUp g ((s.wd w).path.getD ((s.wd w).path.length - 2) 0) last = false) →
+      (∀ k, dropped s' w k = dropped s w k) → Move g w s s'
+  | pop (next : Nat) :
+      (s.wd w).path.getLast? = some next → 2 ≤ (s.wd w).path.length → (s'.wd w).path = (s.wd w).path.dropLast →
+      (∀ k, dropped s w k = true → dropped s' w k = true) →
+      dropped s' w (posKey g ((s.wd w).path.getD ((s.wd w).path.length - 2) 0) next) = true → Move g w s s'
+
+theorem isUp_parent (g : Graph) (hsym : EdgeSym g) (last c : Nat) (hc : c ∈ (g.node last).setup.map (·.1)) :
+    isUp g last c = true := by
+  unfold isUp; simp only [List.contains_iff_mem]; exact (hsym c last).mp hc
+
+theorem isUp_child (g : Graph) (d : Nat → Nat) (hr : Ranked g d) (hsym : EdgeSym g) (last c : Nat)
+    (hc : c ∈ (g.node last).cleanup.map (·.1)) : isUp g last c = false := by
+  have hlt := hr.lt c last ((hsym last c).mpr hc)
+  cases hu : isUp g last c
+  · rfl
+  · exfalso
+    unfold isUp at hu
+    simp only [List.contains_iff_mem] at hu
+    have := hr.lt last c ((hsym c last).mpr hu)
+    omega
+
+/-- a move lowers the measure and keeps the shape of the path -/
+theorem move_dec (g : Graph) (d : Nat → Nat) (hr : Ranked g d) (hsym : EdgeSym g) (w : Nat) (s s' : State)
+    (hwalk : Walk g d (s.wd w).path) (m : Move g w s s') : phi g s' w < phi g s w ∧ Walk g d (s'.wd w).path := by
+  cases m with
+  | pushUp last c hl hp hc hnd hD =>
+    have hk : posKey g last c = (true, (g.node last).cls, (g.node c).cls) := by
+      unfold posKey; rw [isUp_parent g hsym last c hc]
+    refine ⟨phi_push g d hr s s' w last c hwalk hl hp hD (by rw [hk]; exact key_setup_mem g last c hc) (by rw [hk]; exact hnd), ?_⟩
+    rw [hp]; exact walk_pushUp g d hr hsym _ last c hwalk hl hc
+  | pushDown last c hl hp hc hnd hmode hD =>
+    have hk : posKey g last c = (false, (g.node last).cls, (g.node c).cls) := by
+      unfold posKey; rw [isUp_child g d hr hsym last c hc]
+    refine ⟨phi_push g d hr s s' w last c hwalk hl hp hD (by rw [hk]; exact key_cleanup_mem g last c hc) (by rw [hk]; exact hnd), ?_⟩
+    rw [hp]; exact walk_pushDown g d hr hsym _ last c hwalk hl hc hmode
+  | pop next hl hlen hp hD hk =>
+    refine ⟨phi_pop g s s' w next hl hlen hp hD hk, ?_⟩
+    rw [hp]; exact walk_pop g d _ hwalk
+
+theorem Move.of_fr {g : Graph} {w : Nat} {s sF s' : State} (a : Fr s sF) (m : Move g w sF s') : Move g w s s' := by
+  have hwd : sF.wd w = s.wd w := a.wd w
+  have hdr : ∀ k, dropped sF w k = dropped s w k := fun k => dropped_of_regs s sF a.regs w k
+  cases m with
+  | pushUp last c hl hp hc hnd hD =>
+    rw [hwd] at hl hp; rw [hdr] at hnd
+    exact .pushUp last c hl hp hc hnd (fun k => by rw [hD, hdr])
+  | pushDown last c hl hp hc hnd hmode hD =>
+    rw [hwd] at hl hp hmode; rw [hdr] at hnd
+    exact .pushDown last c hl hp hc hnd hmode (fun k => by rw [hD, hdr])
+  | pop next hl hlen hp hD hk =>
+    rw [hwd] at hl hp hlen hk
+    exact .pop next hl hlen hp (fun k hk' => hD k (by rw [hdr]; exact hk')) hk
+
+/-- every class of the graph has its registers -/
+def ClsOK (g : Graph) (s : State) : Prop := ∀ n, n < g.nodes.length → (g.node n).cls < s.regs.length
+
+theorem lt_of_setup_mem (g : Graph) (n p : Nat) (h : p ∈ (g.node n).setup.map (·.1)) : n < g.nodes.length := by
+  by_cases hn : n < g.nodes.length
+  · exact hn
+  · rw [(node_edges_nil g n hn).1] at h; simp at h
+
+theorem lt_of_cleanup_mem (g : Graph) (n c : Nat) (h : c ∈ (g.node n).cleanup.map (·.1)) : n < g.nodes.length := by
+  by_cases hn : n < g.nodes.length
+  · exact hn
+  · rw [(node_edges_nil g n hn).2] at h; simp at h
+
+theorem afterTraverse_up_eq (gv : Graph) (s : State) (w next prev : Nat) (s1 : State) (evs : List Event)
+    (h : runDecision gv s next w = .ok (false, s1, evs)) :
+    afterTraverse gv s w next prev .up = (popPath (dropParent gv s1 prev next w) w, evs, .cont) := by
+  unfold afterTraverse; rw [h]; rfl
+
+theorem afterTraverse_down_eq (gv : Graph) (s : State) (w next prev : Nat) (s1 : State) (evs : List Event)
+    (h : runDecision gv s next w = .ok (false, s1, evs)) :
+    afterTraverse gv s w next prev .down =
+      if isCleanupReady gv s1 next w then
+        if !(gv.node next).flat && (s1.wd w).unexplored then (s1.setWd w (fun d => { d with path := [gv.root] }), evs, .cont) else
+        match reverseNode gv ((gv.node next).setup.foldl (fun s (p, _) => dropChild gv s p next w) s1) next w with
+        | .error e => ((gv.node next).setup.foldl (fun s (p, _) => dropChild gv s p next w) s1, evs, .raise e)
+        | .ok (s, evs2) => (popPath s w, evs ++ evs2, .cont)
+      else
+        match pickChild gv s1 next w with
+        | none => (s1, evs, .raise "RuntimeError")
+        | some (c, s) => (pushPath s w c, evs, .cont) := by
+  unfold afterTraverse; rw [h]; rfl
+
+
+theorem path_popPath (s : State) (w : Nat) (hw : w < s.workers.length) : ((popPath s w).wd w).path = (s.wd w).path.dropLast := by
+  unfold popPath; rw [wd_setWd_eq s w _ hw]
+
+theorem path_pushPath (s : State) (w c : Nat) (hw : w < s.workers.length) : ((pushPath s w c).wd w).path = (s.wd w).path ++ [c] := by
+  unfold pushPath; rw [wd_setWd_eq s w _ hw]
+
+theorem dropped_setWd (s : State) (v : Nat) (f : WorkerD → WorkerD) (w : Nat) (k : Key) :
+    dropped (s.setWd v f) w k = dropped s w k := dropped_of_regs s _ rfl w k
+
+/-- the rest of the loop body after a node was entered and not run: a pop with the drop, or a push of a child -/
+theorem afterTraverse_cont (g : Graph) (d : Nat → Nat) (hr : Ranked g d) (hsym : EdgeSym g) (sv sF : State)
+    (w next prev : Nat) (dir : Dir)
+    (hw : w < sF.workers.length)
+    (hlast : (sF.wd w).path.getLast? = some next) (hlen : 2 ≤ (sF.wd w).path.length)
+    (hprev : prev = (sF.wd w).path.getD ((sF.wd w).path.length - 2) 0)
+    (hcls : ClsOK g sF) (hun : (sF.wd w).unexplored = false)
+    (hdir : (dir = .up ∧ prev ∈ ((vis g sv).node next).cleanup.map (·.1)) ∨
+            (dir = .down ∧ prev ∈ ((vis g sv).node next).setup.map (·.1)))
+    (s2 : State) (evs2 : List Event) (hrd : runDecision (vis g sv) sF next w = .ok (false, s2, evs2))
+    (hc : (afterTraverse (vis g sv) sF w next prev dir).2.2 = .cont) :
+    Move g w sF (afterTraverse (vis g sv) sF w next prev dir).1 ∧ Keep sF (afterTraverse (vis g sv) sF w next prev dir).1 := by
+  have f2 : Fr sF s2 := fr_runDecision _ sF next w false s2 evs2 hrd
+  have hw2 : w < s2.workers.length := by rw [f2.workers]; exact hw
+  have hd2 : ∀ k, dropped s2 w k = dropped sF w k := fun k => dropped_of_regs sF s2 f2.regs w k
+  rcases hdir with ⟨hdir, hmem⟩ | ⟨hdir, hmem⟩
+  · -- upwards: the parent is dropped from the child
+    subst hdir
+    have hmem' := vis_cleanup_sub g sv next prev hmem
+    have hup : isUp g prev next = true := by unfold isUp; simp only [List.contains_iff_mem]; exact hmem'
+    have hpn : prev < g.nodes.length := lt_of_setup_mem g prev next ((hsym next prev).mpr hmem')
+    rw [afterTraverse_up_eq _ sF w next prev s2 evs2 hrd]
+    dsimp only
+    have hwX : w < (dropParent (vis g sv) s2 prev next w).workers.length := hw2
+    refine ⟨.pop next hlast hlen ?_ ?_ ?_, ?_⟩
+    · rw [path_popPath _ w hwX]
+      show (s2.wd w).path.dropLast = _
+      rw [f2.wd w]
+    · intro k hk
+      unfold popPath
+      rw [dropped_setWd]
+      exact dropped_dropParent_mono _ s2 prev next w w k (by rw [hd2]; exact hk)
+    · unfold popPath
+      rw [dropped_setWd, ← hprev]
+      unfold posKey
+      rw [hup]
+      have := dropped_dropParent_key (vis g sv) s2 prev next w (by rw [vis_cls, f2.regs]; exact hcls prev hpn)
+      rw [vis_cls, vis_cls] at this
+      exact this
+    · unfold popPath dropParent
+      exact f2.keep.trans ((keep_setCr s2 _ _).trans (keep_setWd _ w _))
+  · subst hdir
+    have hmem' := vis_setup_sub g sv next prev hmem
+    have hdown : isUp g prev next = false := isUp_child g d hr hsym prev next ((hsym prev next).mp hmem')
+    have hpn : prev < g.nodes.length := lt_of_cleanup_mem g prev next ((hsym prev next).mp hmem')
+    rw [afterTraverse_down_eq _ sF w next prev s2 evs2 hrd] at hc ⊢
+    by_cases hcr : isCleanupReady (vis g sv) s2 next w = true
+    · simp only [hcr, if_true] at hc ⊢
+      have hun2 : (s2.wd w).unexplored = false := by rw [f2.wd w]; exact hun
+      simp only [hun2, Bool.and_false, Bool.false_eq_true, if_false] at hc ⊢
+      generalize hsD : ((vis g sv).node next).setup.foldl (fun s (p, _) => dropChild (vis g sv) s p next w) s2 = sD at hc ⊢
+      have kD : Keep s2 sD := by rw [← hsD]; exact keep_dropChildren _ next w _ s2
+      have wdD : sD.wd w = s2.wd w := by rw [← hsD]; exact wd_dropChildren _ next w w _ s2
+      cases hrev : reverseNode (vis g sv) sD next w with
+      | error e => simp only [hrev] at hc; cases hc
+      | ok r =>
+        obtain ⟨s3, evs3⟩ := r
+        simp only [hrev] at hc ⊢
+        have f3 : Fr sD s3 := fr_reverseNode _ sD next w s3 evs3 hrev
+        have hw3 : w < s3.workers.length := by rw [f3.workers, kD.workersLen]; exact hw2
+        refine ⟨.pop next hlast hlen ?_ ?_ ?_, ?_⟩
+        · rw [path_popPath _ w hw3, f3.wd w, wdD, f2.wd w]
+        · intro k hk
+          unfold popPath
+          rw [dropped_setWd, dropped_of_regs sD s3 f3.regs, ← hsD]
+          exact dropped_dropChildren_mono _ next w w k _ s2 (by rw [hd2]; exact hk)
+        · unfold popPath
+          rw [dropped_setWd, dropped_of_regs sD s3 f3.regs, ← hprev, ← hsD]
+          unfold posKey
+          rw [hdown]
+          have := dropped_dropChildren_key (vis g sv) next w prev _ s2 hmem (by rw [vis_cls, f2.regs]; exact hcls prev hpn)
+          rw [vis_cls, vis_cls] at this
+          exact this
+        · unfold popPath
+          exact f2.keep.trans (kD.trans (f3.keep.trans (keep_setWd _ w _)))
+    · simp only [hcr, Bool.false_eq_true, if_false] at hc ⊢
+      cases hpk : pickChild (vis g sv) s2 next w with
+      | none => simp only [hpk] at hc; cases hc
+      | some r =>
+        obtain ⟨c, s3⟩ := r
+        simp only [hpk] at hc ⊢
+        obtain ⟨hcm, hnd, f, hs3, hf⟩ := pickChild_spec _ s2 next w c s3 hpk
+        have hw3 : w < s3.workers.length := by rw [hs3]; exact hw2
+        refine ⟨.pushDown next c hlast ?_ (vis_cleanup_sub g sv next c hcm) ?_ (Or.inr (by rw [← hprev]; exact hdown)) ?_, ?_⟩
+        · rw [path_pushPath _ w c hw3, hs3]
+          show (s2.wd w).path ++ [c] = _
+          rw [f2.wd w]
+        · rw [vis_cls, vis_cls] at hnd
+          rw [← hd2]; exact hnd
+        · intro k
+          unfold pushPath
+          rw [dropped_setWd, hs3, dropped_setCr_picks s2 _ f hf, hd2]
+        · unfold pushPath
+          rw [hs3]
+          exact f2.keep.trans ((keep_setCr s2 _ _).trans (keep_setWd _ w _))
+
+
+/-- `traverse_node` without suspension followed by the rest of the loop body -/
+theorem traverseNode_cont (g : Graph) (d : Nat → Nat) (hr : Ranked g d) (hsym : EdgeSym g) (sv s : State)
+    (w next prev : Nat) (dir : Dir)
+    (hocc : isOccupied (vis g sv) s next w = false) (hn : next < s.nodes.length)
+    (hw : w < s.workers.length)
+    (hlast : (s.wd w).path.getLast? = some next) (hlen : 2 ≤ (s.wd w).path.length)
+    (hprev : prev = (s.wd w).path.getD ((s.wd w).path.length - 2) 0)
+    (hcls : ClsOK g s) (hun : (s.wd w).unexplored = false)
+    (hdir : (dir = .up ∧ prev ∈ ((vis g sv).node next).cleanup.map (·.1)) ∨
+            (dir = .down ∧ prev ∈ ((vis g sv).node next).setup.map (·.1)))
+    (hc : (traverseNode (vis g sv) s w next prev dir).2.2 = .cont) :
+    Move g w s (traverseNode (vis g sv) s w next prev dir).1 ∧ Keep s (traverseNode (vis g sv) s w next prev dir).1 := by
+  unfold traverseNode at hc ⊢
+  simp only [hocc, Bool.false_eq_true, if_false] at hc ⊢
+  have fE : Fr s (s.setNd next (fun d => { d with started := some w })) := fr_setNd s next _
+  have fP : Fr s (pullLocations (vis g sv) (s.setNd next (fun d => { d with started := some w })) next) :=
+    fE.trans (fr_pullLocations _ _ next)
+  have hst : ((pullLocations (vis g sv) (s.setNd next (fun d => { d with started := some w })) next).nd next).started = some w := by
+    rw [started_pullLocations, nd_setNd_eq s next _ hn]
+  generalize pullLocations (vis g sv) (s.setNd next (fun d => { d with started := some w })) next = sa at hc fP hst ⊢
+  cases hd : runDecision (vis g sv) sa next w with
+  | error e => simp only [hd] at hc; cases hc
+  | ok r =>
+    obtain ⟨run, s1, evs⟩ := r
+    simp only [hd] at hc ⊢
+    cases run with
+    | true =>
+      simp only [if_true] at hc
+      split at hc
+      · simp only [startTest_flow] at hc; cases hc
+      · simp only [startTest_flow] at hc; cases hc
+    | false =>
+      simp only [Bool.false_eq_true, if_false] at hc ⊢
+      have f1 : Fr sa s1 := fr_runDecision _ sa next w false s1 evs hd
+      have fF : Fr s (finishTraverse s1 next w) := fP.trans (f1.trans (fr_finishTraverse s1 next w))
+      obtain ⟨s2, evs2, hrd2⟩ := runDecision_again (vis g sv) sa next w (by rw [fP.nodesLen]; exact hn) hst s1 evs hd
+      have hwdF : (finishTraverse s1 next w).wd w = s.wd w := fF.wd w
+      have := afterTraverse_cont g d hr hsym sv (finishTraverse s1 next w) w next prev dir
+        (by rw [fF.workers]; exact hw) (by rw [hwdF]; exact hlast) (by rw [hwdF]; exact hlen) (by rw [hwdF]; exact hprev)
+        (fun n hn' => by rw [fF.regs]; exact hcls n hn') (by rw [hwdF]; exact hun) hdir s2 evs2 hrd2 hc
+      exact ⟨Move.of_fr fF this.1, fF.keep.trans this.2⟩
+
+
+theorem walk_top_lt (g : Graph) (d : Nat → Nat) (p : List Nat) (next : Nat) (h : Walk g d p) (hl : p.getLast? = some next)
+    (hlen : 2 ≤ p.length) : next < g.nodes.length := by
+  obtain ⟨rest, hq⟩ := rev_two p next hl hlen
+  unfold Walk at h
+  rw [hq] at h
+  rcases h.1 with h1 | h1
+  · exact lt_of_setup_mem g next _ h1
+  · exact lt_of_cleanup_mem g next _ h1
+
+/-- one iteration that neither suspends nor ends the loop is a move -/
+theorem iter_cont (g : Graph) (d : Nat → Nat) (hr : Ranked g d) (hsym : EdgeSym g) (s : State) (w : Nat)
+    (hnl : s.nodes.length = g.nodes.length) (hcls : ClsOK g s) (hwalk : Walk g d (s.wd w).path)
+    (hun : 2 ≤ (s.wd w).path.length → (s.wd w).unexplored = false)
+    (hc : (iter (vis g s) s w).2.2 = .cont) :
+    Move g w s (iter (vis g s) s w).1 ∧ Keep s (iter (vis g s) s w).1 := by
+  unfold iter at hc ⊢
+  dsimp only at hc ⊢
+  by_cases hroot : isCleanupReady (vis g s) s (vis g s).root w = true
+  · simp only [hroot, if_true] at hc
+    split at hc <;> cases hc
+  · simp only [hroot, Bool.false_eq_true, if_false] at hc ⊢
+    cases hl : (s.wd w).path.getLast? with
+    | none => simp only [hl] at hc; cases hc
+    | some next =>
+      simp only [hl] at hc ⊢
+      have hne : (s.wd w).path ≠ [] := by intro h; rw [h] at hl; simp at hl
+      have hw : w < s.workers.length := lt_of_path_ne_nil s w hne
+      by_cases hlen1 : ((s.wd w).path.length == 1) = true
+      · -- at the root: pick a child
+        simp only [hlen1, if_true] at hc ⊢
+        have hlen1' : (s.wd w).path.length = 1 := by simpa using hlen1
+        cases hpk : pickChild (vis g s) s next w with
+        | none => simp only [hpk] at hc; cases hc
+        | some r =>
+          obtain ⟨c, s3⟩ := r
+          simp only [hpk] at hc ⊢
+          obtain ⟨hcm, hnd, f, hs3, hf⟩ := pickChild_spec _ s next w c s3 hpk
+          have hw3 : w < s3.workers.length := by rw [hs3]; exact hw
+          refine ⟨.pushDown next c hl ?_ (vis_cleanup_sub g s next c hcm) ?_ (Or.inl hlen1') ?_, ?_⟩
+          · rw [path_pushPath _ w c hw3, hs3]; rfl
+          · rw [vis_cls, vis_cls] at hnd; exact hnd
+          · intro k
+            unfold pushPath
+            rw [dropped_setWd, hs3, dropped_setCr_picks s _ f hf]
+          · unfold pushPath
+            rw [hs3]
+            exact (keep_setCr s _ _).trans (keep_setWd _ w _)
+      · simp only [hlen1, Bool.false_eq_true, if_false] at hc ⊢
+        have hlen : 2 ≤ (s.wd w).path.length := by
+          have h0 : 0 < (s.wd w).path.length := List.length_pos_iff.mpr hne
+          have h1 : (s.wd w).path.length ≠ 1 := by simpa using hlen1
+          omega
+        have hnx : next < s.nodes.length := by rw [hnl]; exact walk_top_lt g d _ next hwalk hl hlen
+        by_cases hocc : isOccupied (vis g s) s next w = true
+        · simp only [hocc, if_true] at hc; cases hc
+        · simp only [hocc, Bool.false_eq_true, if_false] at hc ⊢
+          have hocc' : isOccupied (vis g s) s next w = false := by simpa using hocc
+          -- a push of a parent
+          have pushParent : ∀ (hc : (match pickParent (vis g s) s next w with
+                | none => ((s, [], Flow.raise "RuntimeError") : Step)
+                | some (p, s') => (pushPath s' w p, [], Flow.cont)).2.2 = .cont),
+              Move g w s (match pickParent (vis g s) s next w with
+                | none => ((s, [], Flow.raise "RuntimeError") : Step)
+                | some (p, s') => (pushPath s' w p, [], Flow.cont)).1 ∧
+              Keep s (match pickParent (vis g s) s next w with
+                | none => ((s, [], Flow.raise "RuntimeError") : Step)
+                | some (p, s') => (pushPath s' w p, [], Flow.cont)).1 := by
+            intro hc
+            cases hpk : pickParent (vis g s) s next w with
+            | none => simp only [hpk] at hc; cases hc
+            | some r =>
+              obtain ⟨c, s3⟩ := r
+              dsimp only
+              obtain ⟨hcm, hnd, f, hs3, hf⟩ := pickParent_spec _ s next w c s3 hpk
+              have hw3 : w < s3.workers.length := by rw [hs3]; exact hw
+              refine ⟨.pushUp next c hl ?_ (vis_setup_sub g s next c hcm) ?_ ?_, ?_⟩
+              · rw [path_pushPath _ w c hw3, hs3]; rfl
+              · rw [vis_cls, vis_cls] at hnd; exact hnd
+              · intro k
+                unfold pushPath
+                rw [dropped_setWd, hs3, dropped_setCr_picks s _ f hf]
+              · unfold pushPath
+                rw [hs3]
+                exact (keep_setCr s _ _).trans (keep_setWd _ w _)
+          by_cases hup : (((vis g s).node next).cleanup.map (·.1)).contains ((s.wd w).path.getD ((s.wd w).path.length - 2) 0) = true
+          · simp only [hup, if_true] at hc ⊢
+            by_cases hsr : isSetupReady (vis g s) s next w = true
+            · simp only [hsr, if_true] at hc ⊢
+              exact traverseNode_cont g d hr hsym s s w next _ .up hocc' hnx hw hl hlen rfl hcls (hun hlen)
+                (Or.inl ⟨rfl, by simpa using hup⟩) hc
+            · simp only [hsr, Bool.false_eq_true, if_false] at hc ⊢
+              exact pushParent hc
+          · simp only [hup, Bool.false_eq_true, if_false] at hc ⊢
+            by_cases hdn : (((vis g s).node next).setup.map (·.1)).contains ((s.wd w).path.getD ((s.wd w).path.length - 2) 0) = true
+            · simp only [hdn, if_true] at hc ⊢
+              by_cases hsr : isSetupReady (vis g s) s next w = true
+              · simp only [hsr, Bool.not_true, Bool.false_eq_true, if_false] at hc ⊢
+                exact traverseNode_cont g d hr hsym s s w next _ .down hocc' hnx hw hl hlen rfl hcls (hun hlen)
+                  (Or.inr ⟨rfl, by simpa using hdn⟩) hc
+              · simp only [hsr, Bool.not_false, if_true] at hc ⊢
+                exact pushParent hc
+            · simp only [hdn, Bool.false_eq_true, if_false] at hc; cases hc
+
+
+theorem iter_rootReady (gv : Graph) (s : State) (w : Nat) (h : isCleanupReady gv s gv.root w = true) :
+    (iter gv s w).2.2 ≠ .cont := by
+  unfold iter
+  dsimp only
+  simp only [h, if_true]
+  split <;> simp
+
+/-- the hypotheses about the state under which the measure argument works (for worker `w`) -/
+structure Good (g : Graph) (d : Nat → Nat) (w : Nat) (s : State) : Prop where
+  nodesLen : s.nodes.length = g.nodes.length
+  cls : ClsOK g s
+  explored : Explored g s
+  walk : Walk g d (s.wd w).path
+
+theorem Good.keep {g : Graph} {d : Nat → Nat} {w : Nat} {s s' : State} (h : Good g d w s) (k : Keep s s')
+    (hwalk : Walk g d (s'.wd w).path) : Good g d w s' :=
+  ⟨k.nodesLen.trans h.nodesLen, fun n hn => by rw [k.regsLen]; exact h.cls n hn, h.explored.keep k, hwalk⟩
+
+theorem phi_congr (g : Graph) (s s' : State) (w : Nat) (hr : s'.regs = s.regs) (hp : (s'.wd w).path = (s.wd w).path) :
+    phi g s' w = phi g s w := by
+  unfold phi
+  rw [hp, funext (dropped_of_regs s s' hr w)]
+
+/-- a `.cont` iteration (with its expansion step) lowers the measure and keeps the hypotheses -/
+theorem iterL_cont (g : Graph) (d : Nat → Nat) (hr : Ranked g d) (hsym : EdgeSym g) (s : State) (w : Nat)
+    (hg : Good g d w s) (hc : (iterL g s w).2.2 = .cont) :
+    phi g (iterL g s w).1 w < phi g s w ∧ Good g d w (iterL g s w).1 := by
+  unfold iterL at hc ⊢
+  split at hc
+  · rename_i hcond
+    simp only [hcond, if_true]
+    have hun : 2 ≤ (s.wd w).path.length → (s.wd w).unexplored = false := by
+      intro hlen
+      exfalso
+      have : isCleanupReady (vis g s) s (vis g s).root w = true := by
+        rw [vis_root]
+        simp only [Bool.or_eq_true, decide_eq_true_eq] at hcond
+        rcases hcond with h | h
+        · exact h
+        · omega
+      exact iter_rootReady _ s w this hc
+    obtain ⟨m, k⟩ := iter_cont g d hr hsym s w hg.nodesLen hg.cls hg.walk hun hc
+    obtain ⟨h1, h2⟩ := move_dec g d hr hsym w s _ hg.walk m
+    exact ⟨h1, hg.keep k h2⟩
+  · rename_i hcond
+    simp only [hcond, Bool.false_eq_true, if_false]
+    dsimp only at hc ⊢
+    have hlen : 2 ≤ (s.wd w).path.length := by
+      simp only [Bool.or_eq_true, decide_eq_true_eq, not_or] at hcond
+      omega
+    have hne : (s.wd w).path ≠ [] := by intro h; rw [h] at hlen; simp at hlen
+    have hw : w < s.workers.length := lt_of_path_ne_nil s w hne
+    obtain ⟨p1, p2, p3, p4, p5, p6⟩ := prepare_explored g s w hg.explored hw
+    have hg1 : Good g d w (prepare g s w) :=
+      ⟨by rw [p2]; exact hg.nodesLen, fun n hn => by rw [p1]; exact hg.cls n hn, p6, by rw [p4]; exact hg.walk⟩
+    obtain ⟨m, k⟩ := iter_cont g d hr hsym (prepare g s w) w hg1.nodesLen hg1.cls hg1.walk (fun _ => p5 hne) hc
+    obtain ⟨h1, h2⟩ := move_dec g d hr hsym w (prepare g s w) _ hg1.walk m
+    rw [phi_congr g s (prepare g s w) w p1 (p4 w)] at h1
+    exact ⟨h1, hg1.keep k h2⟩
+
+/-! ## the loop -/
+
+/-- `runLoop` with the exhaustion of the fuel made explicit (`none`) -/
+def runLoopO (g : Graph) (w : Nat) : Nat → State → List Event → Option (State × List Event)
+  | 0, _, _ => none
+  | fuel + 1, s, evs =>
+    let s := s.setWd w (fun d => { d with pc := .loop })
+    match iterL g s w with
+    | (s, e, .cont) => runLoopO g w fuel s (evs ++ e)
+    | (s, e, .suspend) => some (s, evs ++ e)
+    | (s, e, .exit) => some (s, evs ++ e)
+    | (s, e, .raise what) =>
+      some (s.setWd w (fun d => { d with pc := .failed }), evs ++ e ++ [Event.raise (g.worker w).id what])
+
+/-- when the explicit version ends, `runLoop` yields the same result, with this and with any larger fuel -/
+theorem runLoop_of_runLoopO (g : Graph) (w : Nat) (fuel : Nat) (s : State) (evs : List Event) (r : State × List Event)
+    (h : runLoopO g w fuel s evs = some r) (fuel' : Nat) (hf : fuel ≤ fuel') : runLoop g w fuel' s evs = r := by
+  induction fuel generalizing s evs fuel' with
+  | zero => simp [runLoopO] at h
+  | succ fuel ih =>
+    obtain ⟨f', rfl⟩ : ∃ f', fuel' = f' + 1 := ⟨fuel' - 1, by omega⟩
+    unfold runLoopO at h
+    unfold runLoop
+    dsimp only at h ⊢
+    split at h
+    · next s1 e heq => rw [heq]; exact ih s1 _ h f' (by omega)
+    · next s1 e heq => rw [heq]; simpa using h
+    · next s1 e heq => rw [heq]; simpa using h
+    · next s1 e what heq => rw [heq]; simpa using h
+
+theorem good_setLoop {g : Graph} {d : Nat → Nat} {w : Nat} {s : State} (hg : Good g d w s) :
+    Good g d w (s.setWd w (fun d => { d with pc := .loop })) ∧
+      phi g (s.setWd w (fun d => { d with pc := .loop })) w = phi g s w := by
+  have hp : ((s.setWd w (fun d => { d with pc := .loop })).wd w).path = (s.wd w).path :=
+    wd_setWd_proj (·.path) s w (fun d => { d with pc := .loop }) (fun _ => rfl) w
+  exact ⟨hg.keep (keep_setWd s w _) (by rw [hp]; exact hg.walk), phi_congr g s _ w rfl hp⟩
+
+/-- with more fuel than the measure the loop ends by itself -/
+theorem runLoopO_isSome (g : Graph) (d : Nat → Nat) (hr : Ranked g d) (hsym : EdgeSym g) (w : Nat) (fuel : Nat) (s : State)
+    (evs : List Event) (hg : Good g d w s) (hf : phi g s w < fuel) : (runLoopO g w fuel s evs).isSome = true := by
+  induction fuel generalizing s evs with
+  | zero => omega
+  | succ fuel ih =>
+    unfold runLoopO
+    dsimp only
+    obtain ⟨hg0, hp0⟩ := good_setLoop hg
+    split
+    · next s1 e heq =>
+      have hc : (iterL g (s.setWd w (fun d => { d with pc := .loop })) w).2.2 = .cont := by rw [heq]
+      obtain ⟨h1, h2⟩ := iterL_cont g d hr hsym _ w hg0 hc
+      rw [heq] at h1 h2
+      exact ih s1 _ h2 (by dsimp only at h1; omega)
+    · rfl
+    · rfl
+    · rfl
+
+/-- **Termination between two suspension points**: with fuel `≥ bound g` the loop of a worker in a good state ends by a
+suspension, the exit or an exception of the traversal; its result is the one for any larger fuel -/
+theorem runLoop_terminates (g : Graph) (d : Nat → Nat) (hr : Ranked g d) (hsym : EdgeSym g) (w : Nat) (s : State)
+    (evs : List Event) (hg : Good g d w s) (fuel : Nat) (hf : bound g ≤ fuel) :
+    ∃ r, runLoopO g w (bound g) s evs = some r ∧ runLoop g w fuel s evs = r := by
+  have h := runLoopO_isSome g d hr hsym w (bound g) s evs hg (phi_lt_bound g d hr s w hg.walk)
+  obtain ⟨r, hr'⟩ := Option.isSome_iff_exists.mp h
+  exact ⟨r, hr', runLoop_of_runLoopO g w (bound g) s evs r hr' fuel hf⟩
+
+
 end I2N.Trav.Term
